@@ -116,10 +116,15 @@ int main(){
         snprintf(tag,sizeof tag,"box.%u",k); dump_sparse(tag,bb,&cc);
         bases.push_back(b); boxed.push_back(bb);
         // calc_penalty wants the padded knot vector only through knots[j..]; plain copy is enough
-        std::vector<double> kn(dims[k].knots);
-        cholmod_sparse* P=calc_penalty(nspl.data(),kn.data(),ndim,k,dims[k].order,dims[k].porder,PHOTOSPLINE_GLAM_NO_MONODIM,&cc);
-        snprintf(tag,sizeof tag,"pen.%u",k); dump_sparse(tag,P,&cc);
-        cholmod_l_free_sparse(&P,&cc);
+        // Only within the limits inside which fit() itself reaches calc_penalty (penalty order <= spline order and <= nsplines:
+        // beyond them divided_diffs overruns its scratch arrays / the row count nsplines - porder wraps; fit() refuses such
+        // arguments when the smoothing is non-zero and never looks at the penalty order when it is zero).
+        if(dims[k].porder<=dims[k].order && dims[k].porder<=nspl[k]){
+          std::vector<double> kn(dims[k].knots);
+          cholmod_sparse* P=calc_penalty(nspl.data(),kn.data(),ndim,k,dims[k].order,dims[k].porder,PHOTOSPLINE_GLAM_NO_MONODIM,&cc);
+          snprintf(tag,sizeof tag,"pen.%u",k); dump_sparse(tag,P,&cc);
+          cholmod_l_free_sparse(&P,&cc);
+        }
       }
       // F and R arrays through the real slicemultiply, dumped as (index tuple, value) lists
       for(int which=0;which<2;which++){
